@@ -244,6 +244,40 @@ func runC06(c *eng.Ctx) {
 	// ---- R8
 	r8 := c.Rule("C06.R8", "C:who-calls/who-writes", "ScheduleManager.Add is reached only through EnableScheduleBindings, which only the EnableScheduleBindings task arm calls; ScheduleLinks entries are created only there (a hook has no schedule links before it is enabled)", 3)
 	runC06R8(c, r8)
+
+	// ---- R10 one Synchronization per binding, also when the enable task is retried
+	r10 := c.Rule("C06.R10", "B:must-pass", "EnableKubernetesBindings: every iteration over the hook's kubernetes bindings that does not return an error appends the Synchronization execution info of that binding", 1)
+	if f := r10.NeedFunc(pkgCtrl + ".(*kubernetesBindingsController).EnableKubernetesBindings"); f != nil {
+		info := f.Pkg.TypesInfo
+		g := p.GraphOf(f)
+		bindings := p.Field(pkgCtrl, "kubernetesBindingsController", "KubernetesBindings")
+		ok := false
+		var pos token.Pos = f.Decl.Pos()
+		for _, el := range elemLoopsOver(info, f.Decl.Body, func(x ast.Expr) bool { return eng.IsField(info, x, bindings) }) {
+			pos = el.Stmt.Pos()
+			isApp := func(n *eng.GNode) bool {
+				as, isA := n.Node.(*ast.AssignStmt)
+				if !isA || len(as.Lhs) != 1 || len(as.Rhs) != 1 {
+					return false
+				}
+				ap := builtinCall(info, as.Rhs[0], "append")
+				return ap != nil && len(ap.Args) == 2 && eng.SelObj(info, as.Lhs[0]) != nil && eng.SelObj(info, as.Lhs[0]) == eng.SelObj(info, ap.Args[0])
+			}
+			entry := loopBodyEntryOf(g, el.Stmt)
+			isHead := isLoopHeadOf(el.Stmt)
+			if entry == nil {
+				continue
+			}
+			ok = true
+			for n := range g.Reach(eng.Query{From: []*eng.GNode{entry}, AvoidNode: isApp}) {
+				if isHead(n) {
+					ok = false
+				}
+			}
+		}
+		r10.Check(ok, f.Key+" one Synchronization per binding", pos, "only an error return leaves an iteration without appending the binding's Synchronization info",
+			"an iteration over the kubernetes bindings can complete without producing the binding's Synchronization (e.g. a binding whose monitor already exists from a failed earlier attempt is skipped): after a retried start the hook never receives that Synchronization and the binding's events stay locked for ever")
+	}
 }
 
 func runC06R3(c *eng.Ctx, r *eng.RuleCtx) {
